@@ -706,7 +706,7 @@ impl Prop for C19 {
         }
         patches.push(("evil.patch".to_string(), B(text)));
         series.push_str(&format!("evil.patch -p{}\n", case.strip));
-        let spec = WsSpec { tree, patches, series: B(series.into_bytes()), applied: None, dirs: vec![] };
+        let spec = WsSpec { tree, patches, series: B(series.into_bytes()), applied: None, dirs: vec![], symlinks: vec![] };
         spec.materialise(&wsroot);
         for v in ["outer/victim.txt", "outer/inner/victim.txt", "victim.txt"] {
             std::fs::write(base.join(v), VICTIM).expect("victim");
